@@ -1,11 +1,12 @@
 import ast
+import copy
 from contextlib import suppress
 from dataclasses import dataclass, field
 from typing import ClassVar, NoReturn
 
 from hugr import Wire
 
-from guppylang_internals.ast_util import AstNode
+from guppylang_internals.ast_util import AstNode, get_type_opt
 from guppylang_internals.checker.core import Context
 from guppylang_internals.checker.expr_checker import ExprSynthesizer
 from guppylang_internals.compiler.core import CompilerContext, DFContainer
@@ -23,6 +24,32 @@ from guppylang_internals.span import Span, to_span
 from guppylang_internals.tys.printing import signature_to_str
 from guppylang_internals.tys.subst import Inst, Subst
 from guppylang_internals.tys.ty import FunctionType, Type
+
+
+def _fresh_args(args: list[ast.expr]) -> list[ast.expr]:
+    """Copies the argument expressions that have not been type checked yet.
+
+    Checking a call annotates the argument nodes with types in place. If a variant is
+    tried and rejected, those annotations must not leak into the attempt for the next
+    variant (e.g. a literal `3` that was typed as `int` can no longer be used as `nat`).
+    """
+    return [_copy_unchecked(arg) for arg in args]
+
+
+def _copy_unchecked(node: ast.expr) -> ast.expr:
+    if get_type_opt(node) is not None:
+        return node
+    new = copy.copy(node)
+    for name, value in ast.iter_fields(node):
+        if isinstance(value, ast.expr):
+            setattr(new, name, _copy_unchecked(value))
+        elif isinstance(value, list):
+            setattr(
+                new,
+                name,
+                [_copy_unchecked(v) if isinstance(v, ast.expr) else v for v in value],
+            )
+    return new
 
 
 @dataclass(frozen=True)
@@ -86,7 +113,7 @@ class OverloadedFunctionDef(CompiledCallableDef, CallableDef):
             assert isinstance(defn, CallableDef)
             available_sigs.append(defn.ty)
             with suppress(GuppyError):
-                return defn.check_call(args, ty, node, ctx)
+                return defn.check_call(_fresh_args(args), ty, node, ctx)
         return self._call_error(args, node, ctx, available_sigs, ty)
 
     def synthesize_call(
@@ -98,7 +125,7 @@ class OverloadedFunctionDef(CompiledCallableDef, CallableDef):
             assert isinstance(defn, CallableDef)
             available_sigs.append(defn.ty)
             with suppress(GuppyError):
-                return defn.synthesize_call(args, node, ctx)
+                return defn.synthesize_call(_fresh_args(args), node, ctx)
         return self._call_error(args, node, ctx, available_sigs)
 
     def _call_error(
